@@ -48,6 +48,31 @@ CHECKS = {
          "Every subcommand is run in child processes; outputs are compared with what the library computes for the same arguments.", "4 C20"),
 }
 
+COMMON_TECH = ("; the same workload once more against the unchecked (no overflow checks / debug assertions) build of the library; "
+               "the native workload runs in a supervised child process: a fatal signal or a call that burns its thread-CPU budget is replayed alone "
+               "(or after the calls before it) in a fresh process and becomes a verdict")
+EXTRA = {
+ "C01": "; index-width size class (codes of 65540 / 131080 bits), largest iteration limits",
+ "C02": "; index-width size class (more than 2^16 / 2^17 message bits), strided and reversed message views",
+ "C03": "; single-parity-check stars of degree 33..79, objects built by Default, largest iteration limits",
+ "C04": "; layered entry point judged alike, degrees up to 90, objects built by Default",
+ "C05": "; exact ties and signed zeros in the layered clause, objects built by Default",
+ "C06": "; thread-CPU-time form of the linear-time clause; construction inside rayon pools of 3/6/12 threads and parallel iterators; call-history pairs; fault injection at the CLI's output (size-limited file)",
+ "C07": "; construction inside rayon pools of 3/6/12 threads and parallel iterators; call-history pairs; fault injection at the CLI's output (size-limited file)",
+ "C08": "; call histories on one thread (valid text after a mutated one); address-space cap so that absurd allocations fail deterministically; index-width size class",
+ "C09": "; index-width size class (more than 2^16 columns)",
+ "C11": "; girth queried inside thread pools on graphs with slow and fast roots; hub nodes of degree 255..600; graphs with more than 2^16 nodes per side",
+ "C12": "; noise independence across workers and across Eb/N0 points (sigma-normalised first-frame digests)",
+ "C13": "; the `ber` front end run once per process with the scripted decoder (both result files compared column by column with the scripted frame log); all-workers-stall and workers-far-ahead scenarios",
+ "C14": "; whole blocks of up to 140000 symbols checked symbol by symbol; sigma from 1e-150 to 1e150; exact bisector points",
+ "C15": "; element type with a destructor (ledger of constructed/dropped values), call histories on one thread, patterns of up to 200 blocks, blocks beyond 2^16 elements",
+ "C16": "; seed search compared with a sequential re-run inside pools of 1/2/4/16 threads on small, marginal and large (overlapping) configurations; TSan and Miri (Tree Borrows) legs in the thorough tier",
+ "C17": "; state-aware set_row/set_col lists, dimensions beyond 64, 128 and 2^16",
+ "C18": "; C constructors and both C decode entry points (f32 with infinite LLRs) in a child process; file-constructor call history",
+ "C19": "; histories on one handle, infinite LLRs, file replaced between constructor calls (also same length and same modification time)",
+ "C20": "; input through a named pipe fed in uneven chunks, pre-existing longer output files, codes with more than 2^16 message bits, option combinations",
+}
+
 BUILT = os.environ.get("LV_BUILT", "").split()
 
 def main():
@@ -73,7 +98,7 @@ def main():
                 "engine": "lv",
                 "level_claimed": {"category": "exploration", "text": text, "design_ref": "DESIGN.md section " + ref},
                 "level_note": LEVEL_NOTE_COMMON,
-                "technique": "runtime monitoring: " + tech,
+                "technique": "runtime monitoring: " + tech + EXTRA.get(pid, "") + COMMON_TECH,
             })
         else:
             na.append({"property_id": pid, "reason": "check not built yet (build phase in progress); it will be claimed once its monitor exists"})
